@@ -348,7 +348,7 @@ class ApplyWatch:
         sim.event("apply", "begin")
         faults = []
         if self.fault_at is not None:
-            self.injected = osseam.os_error(self.errno_name, "")
+            self.injected = osseam.fault_exception(self.errno_name, "")
             faults = [{"kind": "err_before", "at": self.fault_at, "count": "mut", "exc": self.injected}]
         sim.arm(faults)
         try:
